@@ -38,6 +38,8 @@ type command struct {
 	id  string
 	rpc *goatorepo.Rpc
 	err error
+	// client is the connection record reporting err
+	client *proxyClient
 }
 
 type proxyClient struct {
@@ -112,7 +114,11 @@ func (p *Proxy) serveClients(ctx context.Context) {
 				p.forwardRpc(cmd.id, cmd.rpc)
 			} else if cmd.err != nil {
 				p.mutex.Lock()
-				delete(p.clients, cmd.id)
+				// Only forget the connection that failed: the peer may have
+				// re-attached under the same name in the meantime.
+				if current, ok := p.clients[cmd.id]; ok && current == cmd.client {
+					delete(p.clients, cmd.id)
+				}
 				p.mutex.Unlock()
 				if p.clientDisconnect != nil {
 					p.clientDisconnect(cmd.id, cmd.err)
@@ -183,7 +189,7 @@ func (p *Proxy) forwardRpc(source string, rpc *goatorepo.Rpc) {
 // proxy's context is done nobody is listening any more, so don't wait for it.
 func (c *proxyClient) reportError(ctx context.Context, err error) {
 	select {
-	case c.toServer <- command{id: c.id, err: err}:
+	case c.toServer <- command{id: c.id, err: err, client: c}:
 	case <-ctx.Done():
 	}
 }
